@@ -522,6 +522,13 @@ func c09Kauri(c *Ctx) {
 		c.Check(okV, "C09.7/verified", "mergeContribution: aggContrib := "+shortVal(val), p.InstrPos(in),
 			"aggContrib is updated only after auth.Verify(contribution, block.ToBytes()) == nil for the block of the current aggregation",
 			"aggContrib updated without verifying the contribution over the block's bytes; facts: "+join(facts.Sorted()))
+		if val == "p1" {
+			// the bare contribution replaces the aggregate only when there is none yet: otherwise what was
+			// accumulated so far (the replica's own vote, at least) is thrown away and the quorum is never reached
+			okE := facts[eqFact("nil", "p0->"+kKauri+"aggContrib")] || facts[eqFact("p0->"+kKauri+"aggContrib", "nil")]
+			c.Check(okE, "C09.7/first", "mergeContribution: a contribution replaces the aggregate only when it is empty", p.InstrPos(in),
+				"aggContrib := contribution only under aggContrib == nil", "the accumulated contribution can be overwritten by a single one; facts: "+join(facts.Sorted()))
+		}
 		if val != "p1" {
 			okM := strings.Contains(val, "Base).Combine(") && errNilOf(facts, func(k string) bool { return strings.HasPrefix(k, kCanMerge+"p1, p0->"+kKauri+"aggContrib)") })
 			c.Check(okM, "C09.7/mergeable", "mergeContribution: combine only mergeable contributions", p.InstrPos(in),
@@ -530,6 +537,55 @@ func c09Kauri(c *Ctx) {
 	}
 	if n == 0 {
 		c.Unresolved("C09.7", "mergeContribution", "no store to aggContrib")
+	}
+	// a new aggregation starts from a clean state that holds exactly the replica's own vote for the proposal
+	if bg := p.Method("protocol/comm", "Kauri", "begin"); bg != nil {
+		fb := NewFlow(p, bg)
+		rs := p.Method("protocol/comm", "Kauri", "reset")
+		want := map[string]string{"aggContrib": "(hs.PartialCert).Signature(p2)", "blockHash": "(hs.PartialCert).BlockHash(p2)", "currentView": kBlockView + "p1" + kPropBlock + ")"}
+		got := map[string]bool{}
+		var bad []string
+		for _, d := range deepInstrs(fb, func(in ssa.Instruction) bool {
+			st, ok := in.(*ssa.Store)
+			if !ok {
+				return false
+			}
+			fa, ok := st.Addr.(*ssa.FieldAddr)
+			return ok && strings.HasPrefix(fieldName(fa.X.Type(), fa.Field), kKauri)
+		}, 0) {
+			st := d.Instr.(*ssa.Store)
+			fa := st.Addr.(*ssa.FieldAddr)
+			f := strings.TrimPrefix(fieldName(fa.X.Type(), fa.Field), kKauri)
+			w, tracked := want[f]
+			if !tracked || (rs != nil && d.In == rs) {
+				continue
+			}
+			if v := d.Key(st.Val); v == w {
+				got[f] = true
+				// the previous aggregation's leftovers are cleared first
+				pos := ssa.Instruction(st)
+				if len(d.Path) > 0 {
+					pos = d.Path[0]
+				}
+				if rs != nil {
+					if w := cfgSearch(fb, nil, bg.Blocks[0], func(x ssa.Instruction) bool { return x == pos }, func(x ssa.Instruction) bool {
+						return isCallTo(rs)(x) || helperAlways(x, isCallTo(rs), 0)
+					}, nil); w != nil {
+						bad = append(bad, p.InstrPos(st)+": "+f+" is set on a path that did not reset the aggregation state")
+					}
+				}
+			}
+		}
+		for f := range want {
+			if !got[f] {
+				bad = append(bad, f+" is not set from the proposal and the replica's own vote")
+			}
+		}
+		sortStrings(bad)
+		c.Check(len(bad) == 0, "C09.7/begin", "Kauri.begin: a new aggregation starts clean, with the replica's own vote", p.FuncPos(bg),
+			"after reset(): blockHash := pc.BlockHash(), currentView := p.Block.View(), aggContrib := pc.Signature()", join(bad))
+	} else {
+		c.Unresolved("C09.7/begin", "Kauri.begin", "anchor missing")
 	}
 	// only contributions for the view being aggregated are merged
 	if ocr := p.Method("protocol/comm", "Kauri", "onContributionRecv"); ocr != nil {
